@@ -37,6 +37,7 @@ def check(ctx) -> None:
     r186(ctx)
     r187(ctx)
     r188(ctx)
+    r189(ctx)
 
 
 def _unwrap_bytes(e):
@@ -488,3 +489,61 @@ def r188(ctx) -> None:
                if isinstance(x, ast.FunctionDef))
     R.check(hits == 2, None, None, 'positive fixture still matches',
             f'fixtures/r188_positive.py: {hits} hit(s), expected 2')
+
+
+B64_ALPHABET = frozenset(
+    b'ABCDEFGHIJKLMNOPQRSTUVWXYZabcdefghijklmnopqrstuvwxyz0123456789+/,')
+
+
+def r189(ctx) -> None:
+    """The run encoder goes through Python's UTF-7 codec and removes the
+    shift markers "+" and "-" around the base64 payload.  "+" is itself a
+    base64 digit, so the markers can only be removed by POSITION (one octet
+    at each end) — a character-class strip also eats payload digits."""
+    R = ctx.rule('R18.9', 'UTF-7 shift markers are removed by position, not '
+                 'by character class', 1)
+    m = ctx.proj.module(MODUTF7)
+    n = 0
+    for f in m.funcs.values():
+        encs = [c for c in calls_in(f.node, 'encode') if c.args and
+                const_value(c.args[0])[1] in ('utf-7', 'utf7', 'UTF-7')]
+        if not encs:
+            continue
+        n += 1
+        key = f'{f.qualname}: shift markers removed by position'
+        bad = []
+        ops = []
+        for x in walk_local(f.node):
+            if isinstance(x, ast.Call) and call_name(x) in (
+                    'strip', 'lstrip', 'rstrip') and \
+                    isinstance(x.func, ast.Attribute):
+                ok, v = const_value(x.args[0]) if x.args else (True, None)
+                chars = frozenset(v) if ok and isinstance(v, bytes) else None
+                if chars is None or chars & B64_ALPHABET:
+                    bad.append(x)
+                ops.append(call_name(x))
+            elif isinstance(x, ast.Call) and call_name(x) in (
+                    'removeprefix', 'removesuffix'):
+                ops.append(call_name(x))
+            elif isinstance(x, ast.Subscript) and \
+                    isinstance(x.slice, ast.Slice):
+                lo = const_value(x.slice.lower)[1] if x.slice.lower else None
+                hi = const_value(x.slice.upper)[1] if x.slice.upper else None
+                ops.append(f'[{lo}:{hi}]')
+        if bad:
+            R.fail(f, bad[0], key,
+                   f'`{txt(bad[0])[-40:]}` strips by character class, and '
+                   f'the class contains base64 digits: a payload that '
+                   f'BEGINS with "+" (every run starting with U+F800..U+FBFF '
+                   f'— CJK compatibility ideographs, the fi/fl ligatures) '
+                   f'loses its first digit; LIST/LSUB/STATUS report '
+                   f'b"&wE-nance" for a mailbox created as b"&+wE-nance", a '
+                   f'spelling that does not decode back to the name')
+        elif '[1:-1]' in ops or {'removeprefix', 'removesuffix'} <= set(ops):
+            R.ok(f, encs[0], key, f'markers removed by {ops}')
+        else:
+            R.undecided(f, encs[0], key, f'marker removal not recognised '
+                        f'(operations seen: {ops})')
+    if n == 0:
+        raise AnchorError('modutf7: no function encodes through the utf-7 '
+                          'codec any more; re-audit R18.9')
